@@ -17,6 +17,7 @@ import (
 	"sort"
 	"strconv"
 	"strings"
+	"text/template"
 	"time"
 
 	"golang.org/x/tools/go/ssa"
@@ -124,7 +125,7 @@ func (o *Obligation) modelFor(timeout time.Duration, workdir string) map[string]
 		return nil
 	}
 	extra := []string{o.Reach, not(o.Goal)}
-	q := c.smt.render(o.UpTo, extra, terms)
+	q := c.smt.renderOpt(o.UpTo, extra, terms, o.Relaxed)
 	r := solveOne(q, timeout, workdir, o.Name+".m1")
 	if r.Status != "sat" {
 		return nil
@@ -179,7 +180,7 @@ func (o *Obligation) modelFor(timeout time.Duration, workdir string) map[string]
 		}
 	}
 	if len(eterms) > 0 {
-		q2 := c.smt.render(o.UpTo, pins, eterms)
+		q2 := c.smt.renderOpt(o.UpTo, pins, eterms, o.Relaxed)
 		r2 := solveOne(q2, timeout, workdir, o.Name+".m2")
 		if r2.Status == "sat" {
 			ev := parseValues(r2.Output)
@@ -312,6 +313,9 @@ func tryReplay(o *Obligation, _ map[string]string, repo, workdir string) *Replay
 		return &ReplayResult{Kind: "none", Why: "no witness values obtained from the solver"}
 	}
 	fn := c.fn
+	if rr := customReplay(o, model, repo, workdir); rr != nil {
+		return rr
+	}
 	if fn.Parent() != nil || len(fn.FreeVars) > 0 {
 		return &ReplayResult{Kind: "none", Why: "closure: no boundary driver (captured variables cannot be rebuilt from outside)", Log: modelText(model)}
 	}
@@ -595,4 +599,87 @@ func (g *testGen) specialField(st types.Type, f *types.Var) string {
 		return "pool.NewMetricPool(0)"
 	}
 	return ""
+}
+
+// custom (entry-level) drivers: /verif/replay/drivers/<function>.go.tmpl, a Go test template
+// rendered with the model; helper functions: int, float, floats, bytes, has.
+func customReplay(o *Obligation, model map[string]string, repo, workdir string) *ReplayResult {
+	c := o.Ctx
+	name := sanitize(shortFn(c.fn))
+	tf := filepath.Join(verifRoot(), "replay", "drivers", name+".go.tmpl")
+	data, err := os.ReadFile(tf)
+	if err != nil {
+		return nil
+	}
+	funcs := template.FuncMap{
+		"has": func(k string) bool { _, ok := model[k]; return ok },
+		"int": func(k string) string {
+			if s, ok := goInt(model[k], nil); ok {
+				return s
+			}
+			return "0"
+		},
+		"float": func(k string) string {
+			if s, ok := goFloat(model[k]); ok {
+				return s
+			}
+			return "0"
+		},
+		"floats": func(k string) string {
+			n, _ := smtIntValue(model["len("+k+")"])
+			vs := strings.Split(model[k+"[...]"], ",")
+			var out []string
+			for i := int64(0); i < n && i < 4096; i++ {
+				lit := "0"
+				if int(i) < len(vs) {
+					if s, ok := goFloat(vs[i]); ok {
+						lit = s
+					}
+				}
+				out = append(out, lit)
+			}
+			return "[]float64{" + strings.Join(out, ", ") + "}"
+		},
+		"bytes": func(k string) string {
+			n, _ := smtIntValue(model["len("+k+")"])
+			vs := strings.Split(model[k+"[...]"], ",")
+			var out []string
+			for i := int64(0); i < n && i < 65536; i++ {
+				lit := "0"
+				if int(i) < len(vs) {
+					if s, ok := goInt(vs[i], nil); ok {
+						lit = s
+					}
+				}
+				out = append(out, lit)
+			}
+			return "[]byte{" + strings.Join(out, ", ") + "}"
+		},
+		"obligation": func() string { return o.Name },
+	}
+	t, err := template.New("drv").Funcs(funcs).Parse(string(data))
+	if err != nil {
+		return &ReplayResult{Kind: "none", Why: "driver template: " + err.Error(), Log: modelText(model)}
+	}
+	var b bytes.Buffer
+	if err := t.Execute(&b, model); err != nil {
+		return &ReplayResult{Kind: "none", Why: "driver template: " + err.Error(), Log: modelText(model)}
+	}
+	p := c.fn
+	for p.Pkg == nil && p.Parent() != nil {
+		p = p.Parent()
+	}
+	pkgDir := filepath.Dir(c.eng.fset.Position(p.Pos()).Filename)
+	rel, _ := filepath.Rel(repo, pkgDir)
+	rr := &ReplayResult{Kind: "entry", Test: b.String(), Pkg: rel}
+	out := runStoredTest(rr, repo, workdir)
+	if len(out) > 3000 {
+		out = out[:3000]
+	}
+	rr.Log = modelText(model) + "\n--- go test ---\n" + out
+	rr.Reproduced = strings.Contains(out, "REPLAY-PANIC") || strings.Contains(out, "REPLAY-VIOLATION")
+	if !rr.Reproduced {
+		rr.Why = "the real code did not misbehave on the input built from the model"
+	}
+	return rr
 }
